@@ -30,6 +30,9 @@ type Session struct {
 	Sched   *tape.Tape // chunking and latency choices; nil = none
 	Log     *evlog.Log
 	Quiesce func() // synctest.Wait inside a bubble
+	// OnIdle, if set, is told when the device side starts (true) and stops
+	// (false) waiting for input of the tool (process mode).
+	OnIdle func(idle bool)
 	// Swarm knobs.
 	ChunkOn   bool
 	LatencyOn bool
@@ -75,7 +78,13 @@ func (s *Session) ReadLine() (string, bool) {
 			return strings.TrimSuffix(line, "\r"), true
 		}
 		buf := make([]byte, 65536)
+		if s.OnIdle != nil {
+			s.OnIdle(true)
+		}
 		n, err := s.devR.Read(buf)
+		if s.OnIdle != nil {
+			s.OnIdle(false)
+		}
 		s.rbuf = append(s.rbuf, buf[:n]...)
 		if err != nil {
 			return "", false
@@ -88,6 +97,9 @@ func (s *Session) ReadLine() (string, bool) {
 		s.wait()
 	}
 }
+
+// IsClosed reports whether either side has closed the session.
+func (s *Session) IsClosed() bool { return s.closed.Load() }
 
 // Pending reports whether a further complete input line is already buffered.
 func (s *Session) Pending() bool {
